@@ -574,6 +574,14 @@ def main():
             else:
                 payload['broken'] = 'correspondence of klepto.rounding with coq/Keys/Rounding.v + decimal oracle (theorems of Props/C12.v)'
                 rep.violation(p['what'][:600], payload)
+    # ---- recorded known findings are probed directly: the line is printed only while they reproduce
+    for f in findings:
+        if f.get('property') == 'C12' and f.get('status') == 'known' and f.get('probe'):
+            try:
+                if getattr(__import__('findings'), f['probe'])():
+                    rep.known_finding(f['id'], f['description'])
+            except Exception as e:
+                rep.violation('probe of known finding %s failed: %s' % (f['id'], e), {'broken': 'known-finding probe'}, no_input=True)
     if not proof_ok:
         rep.violation('proof obligation no longer checks: %s' % (pinfo.get('log') or pinfo.get('build_log')), {'broken': 'coq/Props/C12.v'}, no_input=True)
     nth = len(pinfo.get('theorems', []))
